@@ -224,6 +224,33 @@ def checkTerminal (all : List ItemId) (s : St) : Option String :=
   else if !s.dq.idle then some s!"final dq not idle {repr s.dq}"
   else none
 
+
+/-- candidate "responsibility" invariant (no lost wakeup), checked on every visited state -/
+def respInv (s : St) : Option String :=
+  let d := s.dq
+  let anyPc (p : Pc → Bool) : Bool := s.threads.any fun th => p th.pc
+  let inflight := anyPc fun
+    | .pPushed _ true | .pLinked _ true | .sSlowLink _ true | .sSlowRmw _ => true
+    | _ => false
+  let tokenAlive := d.E && (s.tokens > 0 || anyPc fun | .dTryLock => true | _ => false)
+  let ownerPastCheck : Bool := match d.O with
+    | none => false
+    | some o => match s.threads[o]? with
+      | some th => (match th.pc with | .dUnlock => true | .bc2 false _ _ => true | _ => false)
+      | none => false
+  let owned := d.O.isSome && (d.D || !ownerPastCheck)
+  let r1 := s.items.isEmpty || tokenAlive || inflight || owned
+  let r2 := (List.range s.threads.length).all fun t =>
+    match s.threads[t]? with
+    | some th => (match th.pc with
+      | .sWait id => s.items.any (fun it => it.id == id) || s.signalled.contains t ||
+          anyPc (fun | .dbwRmw w _ _ => w == t | .dbwSignal w _ => w == t | _ => false)
+      | _ => true)
+    | none => true
+  if !r1 then some "R1 (pending items but nobody responsible)"
+  else if !r2 then some "R2 (parked waiter neither queued nor signalled)"
+  else none
+
 partial def bfs (init : St) (limit : Nat) : IO Unit := do
   let all := expectedItems init.threads
   let mut seen : HashSet St := {}
@@ -237,6 +264,8 @@ partial def bfs (init : St) (limit : Nat) : IO Unit := do
       n := n + 1
       if let some b := s.bad then
         IO.println s!"VIOLATION {b}\n{repr s}"; return
+      if let some b := respInv s then
+        IO.println s!"RESPINV {b}\n{repr s}"; return
       let succ := successors s
       if succ.isEmpty then
         terminals := terminals + 1
